@@ -414,8 +414,9 @@ def run(ctx):
                 if ra[0] == "cond":
                     c = ra[1]
                     co = operand(c["c"])
-                    ok = co is not None and co[1] == "r1" and "_op2" in show(c["x"]) and "_op3" in show(c["y"])
-            ctx.ob("R07.3", inst, ok, site, "selects _op2 when r1 is true, else _op3")
+                    # contextually converted to bool: a floating condition in (-1, 1) is true unless it is 0.0
+                    ok = co is not None and co == ("bool", "r1") and "_op2" in show(c["x"]) and "_op3" in show(c["y"])
+            ctx.ob("R07.3", inst, ok, site, "selects _op2 when r1.as_boolean() is true, else _op3 (not as_integer(): 0.5 is true)")
         elif kind == "comma":
             ok = all(result_arg(r) == ("bare", "r2") for r in rets) and bool(rets)
             ctx.ob("R07.3", inst, ok, site, "returns the right operand")
